@@ -23,18 +23,86 @@ def _cells(fn):
     return out
 
 
-def entity_type_of(fn):
+def _candidate_types(fn, depth=0, seen=None):
+    """entity classes reachable through the closure cells of fn (whatever the cells are called)"""
+    import dataclasses
+    seen = seen if seen is not None else set()
+    out = []
+    for v in _cells(fn).values():
+        if id(v) in seen:
+            continue
+        seen.add(id(v))
+        if isinstance(v, type) and dataclasses.is_dataclass(v) and hasattr(v, "__flexible__"):
+            out.append(v)
+        elif callable(v) and getattr(v, "__closure__", None) and depth < 2:
+            out.extend(_candidate_types(v, depth + 1, seen))
+    return out
+
+
+def plan_callables(fn):
+    """The per-field codecs captured by an entity closure, found by SHAPE, not by the names of its
+    private variables: a captured dict keyed by dataclasses.Field maps regular fields to their codec,
+    a captured dict keyed by int maps tags to a tuple that contains the Field and its codec.
+    Returns ({field name: callable}, {tag: (field name, callable)})."""
+    import dataclasses
+    regular, tagged = {}, {}
+    seen = set()
+
+    def walk(f, depth):
+        for v in _cells(f).values():
+            if id(v) in seen:
+                continue
+            seen.add(id(v))
+            if isinstance(v, dict) and v:
+                for k, val in v.items():
+                    parts = val if isinstance(val, tuple) else (val,)
+                    fns = [p for p in parts if callable(p) and not isinstance(p, type)]
+                    flds = [p for p in parts if isinstance(p, dataclasses.Field)]
+                    if isinstance(k, dataclasses.Field) and fns:
+                        regular[k.name] = fns[0]
+                    elif isinstance(k, int) and not isinstance(k, bool) and fns and flds:
+                        tagged[int(k)] = (flds[0].name, fns[0])
+            elif callable(v) and getattr(v, "__closure__", None) and depth < 2 \
+                    and (getattr(v, "__module__", "") or "").startswith("kio.serial._"):
+                if identify(v) is None:          # a private helper of the same closure, not a nested entity codec
+                    walk(v, depth + 1)
+    walk(fn, 0)
+    return regular, tagged
+
+
+def identify(fn):
+    """(kind, T, nullable) of a closure handed out by the public entity_writer / entity_reader.
+    The anchor is the public API, not the private names inside it: fn is recognised when
+    entity_writer(T, nullable) / entity_reader(T, nullable) returns this very object for a class T
+    found in its closure cells."""
+    from kio.serial import entity_reader, entity_writer
+    for T in _candidate_types(fn):
+        for nullable in (False, True):
+            for kind, api in (("writer", entity_writer), ("reader", entity_reader)):
+                try:
+                    if api(T, nullable) is fn:
+                        return kind, T, nullable
+                except Exception:        # noqa: BLE001
+                    continue
+    # fall back on the private names (an API that stopped caching hands out a new object each time)
     q = getattr(fn, "__qualname__", "")
     cells = _cells(fn)
-    if q.endswith("write_entity") or q.endswith("read_entity"):
-        return cells.get("entity_type")
-    if q.endswith("write_nullable"):
-        inner = cells.get("write_entity")
-        return entity_type_of(inner) if inner is not None else None
-    if q.endswith("read_nullable_entity"):
-        inner = cells.get("read_entity")
-        return entity_type_of(inner) if inner is not None else None
+    if q.endswith("write_entity") and "entity_type" in cells:
+        return "writer", cells["entity_type"], False
+    if q.endswith("read_entity") and "entity_type" in cells:
+        return "reader", cells["entity_type"], False
+    if q.endswith("write_nullable") and cells.get("write_entity") is not None:
+        inner = identify(cells["write_entity"])
+        return ("writer", inner[1], True) if inner else None
+    if q.endswith("read_nullable_entity") and cells.get("read_entity") is not None:
+        inner = identify(cells["read_entity"])
+        return ("reader", inner[1], True) if inner else None
     return None
+
+
+def entity_type_of(fn):
+    r = identify(fn)
+    return r[1] if r else None
 
 
 class EntityWriterContract(WriterContract):
@@ -62,26 +130,17 @@ _cache = {}
 
 def extra_lookup(fn, reg):
     """Registry.extra hook: closures from kio.serial._serialize / _parse"""
-    mod = getattr(fn, "__module__", "")
-    q = getattr(fn, "__qualname__", "")
-    if mod not in ("kio.serial._serialize", "kio.serial._parse") or "<locals>" not in q:
+    mod = getattr(fn, "__module__", "") or ""
+    if not mod.startswith("kio.serial") or not getattr(fn, "__closure__", None):
         return None
     key = id(fn)
     if key in _cache and _cache[key][0] is fn:
         return _cache[key][1]
-    T = entity_type_of(fn)
-    if T is None:
+    r = identify(fn)
+    if r is None:
+        _cache[key] = (fn, None)
         return None
-    leaf = q.rsplit(".", 1)[-1]
-    if leaf == "write_entity":
-        c = EntityWriterContract(T, False)
-    elif leaf == "write_nullable":
-        c = EntityWriterContract(T, True)
-    elif leaf == "read_entity":
-        c = EntityReaderContract(T, False)
-    elif leaf == "read_nullable_entity":
-        c = EntityReaderContract(T, True)
-    else:
-        return None
+    kind, T, nullable = r
+    c = EntityWriterContract(T, nullable) if kind == "writer" else EntityReaderContract(T, nullable)
     _cache[key] = (fn, c)
     return c
